@@ -11,6 +11,8 @@ K4  load_token_trivia, one loop step from an arbitrary position: input Whitespac
     create_newline_trivia, spaces(1) and format_token results for non-whitespace trivia
 K5  format_eof: nothing but comments (and their indent/newline) survives before EOF, trailing whitespace is popped and exactly one
     newline appended; pop_until_no_whitespace stops at the first non-whitespace token
+A   adjacency: in every token list assembled by a function that places indents (vec!/push/append/extend followed in path order) an
+    indent is never directly followed by white space or by a comment list whose elements carry a leading space
 S   site census over the whole library MIR (both feature sets): TokenType::Whitespace is built only in create_newline_trivia (and
     format_token's unreachable pass-through arm), tabs() only in create_plain_indent_trivia, every other spaces(n) has n in {0,1},
     no symbol text contains a tab, CR or LF
@@ -477,6 +479,165 @@ def census(ses, rep, fs):
     return flagged
 
 
+def space_first_closures(ses, fs):
+    """closures that return `vec![<white space token>, ..]` (used under flat_map: every group of the collected list starts with white space)
+    and the functions whose result is such a list: the ones that own such a closure and their thin wrappers"""
+    funcs = ses.mir("lib", fs)
+    clos, fns = set(), set()
+    for name, l in funcs.items():
+        if "{closure" not in name:
+            continue
+        for g in l:
+            if not g.ret or "Vec<" not in g.ret or "Token" not in g.ret or len(g.blocks) > 40:
+                continue
+            ex = ses.executor("lib", fs, inline=lambda n_, fn: False)
+            try:
+                outs = ex.run(g, lazy_args(ex, g))
+            except Inconclusive:
+                continue
+            firsts = []
+            for o in outs:
+                if o.kind != "return":
+                    continue
+                el = vec_elems(ex, o, o.value)
+                if el:
+                    w = whitespace_text(ex, o.state, el[0])
+                    firsts.append(w is not None and w[0] in ("spaces", "tabs", "text"))
+                else:
+                    firsts.append(False)
+            if firsts and all(firsts):
+                m = re.search(r"\{closure@[^}]*\}", g.params[0][1]) if g.params else None
+                if m:
+                    clos.add(m.group(0))
+                    owner = name.split("::{closure")[0]
+                    if any(h.ret and "Vec<" in h.ret and "Token" in h.ret for h in funcs.get(owner, [])):
+                        fns.add(owner.split("::")[-1])
+    # thin wrappers: a function of at most 4 blocks whose only calls are to space-first functions
+    changed = True
+    while changed:
+        changed = False
+        for name, l in funcs.items():
+            last = name.split("::")[-1]
+            if "{closure" in name or last in fns:
+                continue
+            for g in l:
+                calls = [canon(s_[2]).split("::")[-1] for sts in g.blocks.values() for s_ in sts if s_[0] == "call"]
+                if len(g.blocks) <= 4 and g.ret and "Vec<" in g.ret and "Token" in g.ret and calls and all(c_ in fns for c_ in calls):
+                    fns.add(last); changed = True
+    return clos, fns
+
+
+def adjacency(ses, rep, fs):
+    """A  no white space after an indent: in every token list a formatter assembles (vec!, push, append, extend - in path order), an
+    element made by create_indent_trivia is never directly followed by a white-space token or by a list whose groups start with one
+    (trailing_comments() and the like prepend a space to every comment)."""
+    flagged = []
+    funcs = ses.mir("lib", fs)
+    clos, sfns = space_first_closures(ses, fs)
+    if "trailing_comments_search" not in sfns:
+        raise Inconclusive(f"adjacency: trailing_comments_search not recognised as a space-prefixing helper ({sorted(sfns)})")
+    rep.extra.setdefault("space_first_helpers", {})[fs] = sorted(sfns)
+    n_fn = n_lists = 0
+    for name, l in sorted(funcs.items()):
+        for f in l:
+            if "{closure" in f.name or "::promoted[" in f.name or not any(s_[0] == "call" and canon(s_[2]).split("::")[-1] in ("create_indent_trivia", "create_plain_indent_trivia")
+                                                                                 for sts in f.blocks.values() for s_ in sts):
+                continue
+            if f.name in ("create_indent_trivia", "create_plain_indent_trivia"):
+                continue
+            outs = None
+            for visits in ((2, 1) if len(f.blocks) < 150 else (1,)):
+                ex = ses.executor("lib", fs, inline=lambda n_, fn: False)
+                ex.max_block_visits = visits
+                ex.max_paths = 3000
+                try:
+                    outs = ex.run(f, lazy_args(ex, f))
+                    break
+                except Inconclusive as e:
+                    err = str(e)
+            if outs is None:
+                rep.extra.setdefault("adjacency_not_encoded", []).append(f"{f.name}: {err[:60]}")
+                continue
+            rep.fn(f)
+            n_fn += 1
+            seen_sites = set()
+            for pi, o in enumerate(outs):
+                if o.kind not in ("return", "loopbound"):
+                    continue
+                hv = [t for t in o.trace if t[0] == "havoc"]
+
+                def cls(v, depth=0):
+                    v = deref_val(ex, o.state, v)
+                    if not isinstance(v, Lazy) or depth > 8:
+                        return "other"
+                    if whitespace_text(ex, o.state, v) is not None:
+                        return "space"
+                    hc = ex.havoc_calls.get(v.oid)
+                    if hc:
+                        last = hc[0].split("::")[-1]
+                        if last in ("create_indent_trivia", "create_plain_indent_trivia"):
+                            return "indent"
+                        if last == "create_newline_trivia":
+                            return "newline"
+                        if last in sfns:
+                            return "list-space-first"
+                        if last in ("collect", "into_iter", "iter", "cloned", "to_owned", "clone", "to_vec", "filter", "chain", "flat_map", "map", "rev"):
+                            raw = ex.havoc_raw.get(v.oid, "")
+                            if last == "flat_map" and any(c_ in raw for c_ in clos):
+                                return "list-space-first"
+                            snap = ex.havoc_snap.get(v.oid, hc[1])
+                            return cls(snap[0], depth + 1) if snap else "other"
+                    return "other"
+                contents = {}
+                for t in hv:
+                    last = t[1].split("::")[-1]
+                    snap = t[4] if len(t) > 4 else t[2]
+                    if "into_vec" in t[1] and isinstance(t[3], Lazy):
+                        el = vec_elems(ex, o, t[3])
+                        if el is None:
+                            continue
+                        contents[t[3].oid] = [cls(e_) for e_ in el]
+                        tgt = t[3].oid
+                    elif last in ("push", "append", "extend", "extend_from_slice", "insert") and re.search(r"Vec(<.*>)?::" + last + "$", t[1]) and snap:
+                        V = deref_val(ex, o.state, snap[0])
+                        if not isinstance(V, Lazy):
+                            continue
+                        cur = contents.setdefault(V.oid, [cls(V)] if cls(V) != "other" else ["?"])
+                        if last == "push":
+                            cur.append(cls(snap[1]))
+                        elif last == "insert":
+                            cur += ["?", cls(snap[2]) if len(snap) > 2 else "?", "?"]
+                        else:
+                            W = deref_val(ex, o.state, snap[1])
+                            if isinstance(W, Lazy) and W.oid in contents:
+                                cur.extend(contents[W.oid])
+                            else:
+                                cur.append(cls(W))
+                        tgt = V.oid
+                    else:
+                        continue
+                    seq = contents[tgt]
+                    n_lists += 1
+                    for a_, b_ in zip(seq, seq[1:]):
+                        if a_ == "indent" and b_ in ("space", "list-space-first"):
+                            site = (f.name, last, b_)
+                            if site in seen_sites:
+                                continue
+                            seen_sites.add(site)
+                            oid = f"adjacency/{fs}/{f.name}/path{pi}/indent-then-{b_}"
+                            r, m = ses.obligation(oid, list(o.pc), z3.BoolVal(True), "an indent token is not followed by white space in the same list")
+                            if r == "sat":
+                                flagged.append((oid, f"{f.name} assembles a token list in which an indent is directly followed by "
+                                                     f"{'a white-space token' if b_ == 'space' else 'comments that each carry a leading space'}", "adjacency", {"function": f.name}))
+            if not seen_sites:
+                rep.add(f"adjacency/{fs}/{f.name}/no-white-space-after-indent", "unsat", "no token list of this function puts white space after an indent (all paths)")
+    rep.bounds[f"adjacency_functions_{fs}"] = n_fn
+    rep.bounds[f"adjacency_list_updates_{fs}"] = n_lists
+    if n_fn < 15:
+        raise Inconclusive(f"adjacency: only {n_fn} functions that place indents analysed")
+    return flagged
+
+
 # ------------------------------------------------------------------------------------------------ replay
 def mask_literals(text):
     """positions inside long strings / quoted strings are exempt"""
@@ -512,6 +673,8 @@ def whitespace_violation(out, le, indent_type, indent_width):
             return f"space in the indentation of {ln!r}"
         if indent_type == "Spaces" and ("\t" in lead):
             return f"tab in the indentation of {ln!r}"
+        if indent_type == "Spaces" and len(lead) % indent_width:
+            return f"indentation of {ln!r} is not a multiple of {indent_width} spaces"
     return None
 
 
@@ -522,6 +685,11 @@ PROGRAMS = [
     "local a = 1\r\nlocal b = 2\nlocal c = 3\r\n-- mixed\nreturn a\r\n",
     "local t = {\n   -- leading  \r\n\ta = 1,\r\n}\n",
     "do\n\t\tlocal x = 1 --[[ a\r\nb ]] local y = 2\nend\n--[==[ x\r\ny ]==]",
+    # comments around operators, commas and brackets of constructs that are hung / expanded over several lines
+    "local function f(aaaa, bbbb)\n\tlocal x = aaaa\n\t\t-- explain the operator\n\t\t+ -- explain the operand\n\t\tbbbb\n\treturn x\nend\n",
+    "local y = first_operand -- a\n\tand -- b\n\tsecond_operand -- c\n\tor --[[d]] third_operand\n",
+    "call(first_argument, -- a\n\t-- b\n\tsecond_argument -- c\n\t, third_argument)\nlocal t = { -- a\n\tk = v, -- b\n\t-- c\n\t[1] = 2 -- d\n\t, 3 }\n",
+    "if a -- c1\n\t-- c2\n\tand -- c3\n\tb then -- c4\n\treturn -- c5\nend\nlocal v = a.b -- c6\n\t.c -- c7\n\t:d() -- c8\n",
 ]
 CONFIGS = [(le, it, iw) for le in ("Unix", "Windows") for it, iw in (("Tabs", 4), ("Spaces", 2), ("Spaces", 3))]
 
@@ -593,6 +761,7 @@ def run(ses, rep):
     flagged += k5(ses, rep)
     for fs in ("default", "full"):
         flagged += census(ses, rep, fs)
+    flagged += adjacency(ses, rep, "full")
     rep.samples.append({"flagged": [(f[0], f[1]) for f in flagged][:8]})
     if not flagged:
         return
